@@ -110,6 +110,15 @@ is_copy_constructible() const {
 }
 
 /**
+ * Returns true if the type is destructible, which is the case if the elements
+ * are.
+ */
+bool CPPArrayType::
+is_destructible() const {
+  return _element_type->is_destructible();
+}
+
+/**
  * Returns true if the type is copy-assignable.
  */
 bool CPPArrayType::
